@@ -131,7 +131,13 @@ def parse_blocks(text):
 
 def run_model(model, cases, wd, jobs=8, timeout=900):
     """cases: list of (tag, chunk_hint, mm, maxdata, path).  Sharded over `jobs` processes."""
-    shards = [cases[i::jobs] for i in range(jobs)]
+    # cases of one file go to the same process (the driver caches the file and its decoding)
+    order = {}
+    for c in cases:
+        order.setdefault(c[4], []).append(c)
+    shards = [[] for _ in range(jobs)]
+    for grp in sorted(order.values(), key=lambda g: -sum(os.path.getsize(x[4]) for x in g)):
+        min(shards, key=lambda sh: sum(os.path.getsize(x[4]) for x in sh)).extend(grp)
     def one(ix):
         sh = shards[ix]
         if not sh:
